@@ -66,16 +66,16 @@ type Violation struct {
 
 // Result is what a worker hands back to the parent.
 type Result struct {
-	Shard       int                         `json:"shard"`
-	Units       int64                       `json:"units"`
-	Evals       int64                       `json:"evals"`
-	Nontrivial  int64                       `json:"nontrivial"`
-	Cov         map[string]map[string]int64 `json:"cov"`
-	Violations  []Violation                 `json:"violations"`
-	ViolCounts  map[string]int64            `json:"viol_counts"`
-	Samples     []json.RawMessage           `json:"samples"`
-	Inconclusive []string                   `json:"inconclusive,omitempty"`
-	Extra       map[string]int64            `json:"extra,omitempty"`
+	Shard        int                         `json:"shard"`
+	Units        int64                       `json:"units"`
+	Evals        int64                       `json:"evals"`
+	Nontrivial   int64                       `json:"nontrivial"`
+	Cov          map[string]map[string]int64 `json:"cov"`
+	Violations   []Violation                 `json:"violations"`
+	ViolCounts   map[string]int64            `json:"viol_counts"`
+	Samples      []json.RawMessage           `json:"samples"`
+	Inconclusive []string                    `json:"inconclusive,omitempty"`
+	Extra        map[string]int64            `json:"extra,omitempty"`
 }
 
 // Ctx is the monitoring context inside one worker process.
@@ -252,7 +252,7 @@ type Property interface {
 
 var registry = map[string]Property{}
 
-func Register(p Property) { registry[p.ID()] = p }
+func Register(p Property)    { registry[p.ID()] = p }
 func Get(id string) Property { return registry[id] }
 func IDs() []string {
 	var ids []string
